@@ -50,6 +50,28 @@ pub fn vocab_of(lang: &str) -> &'static Vocab {
                         v.srcdict.push(leaked);
                     }
                 }
+                // multi-word expressions harvested from the same source files: kept when no component is a number
+                // word for this tree (components may be linking words)
+                let not_number = |lo: &str| {
+                    ["", "1", "2", "7", "20", "100", "1000", "2000000"].iter().all(|pre| {
+                        let mut probe = text2num::digit_string::DigitString::new();
+                        if !pre.is_empty() {
+                            let _ = probe.put(pre.as_bytes());
+                        }
+                        matches!(text2num::LangInterpreter::apply(lg, lo, &mut probe), Err(text2num::error::Error::NaN)) && matches!(text2num::LangInterpreter::apply_decimal(lg, lo, &mut probe), Err(text2num::error::Error::NaN))
+                    }) && text2num::text2digits(lo, lg).is_err()
+                        && !text2num::LangInterpreter::is_decimal_sep(lg, lo)
+                        && !v.number_words.iter().any(|x| x.to_lowercase() == lo)
+                        && lo != v.conj
+                        && lo != v.sep
+                        && !v.zeros.contains(&lo)
+                };
+                for ph in crate::SRC_PHRASES.iter().find(|(c, _)| c == l).map(|(_, ws)| *ws).unwrap_or(&[]) {
+                    let parts: Vec<&str> = ph.split(' ').collect();
+                    if parts.iter().all(|w| not_number(w)) && text2num::text2digits(ph, lg).is_err() {
+                        v.phrases.push(parts.iter().map(|w| -> &'static str { Box::leak(w.to_string().into_boxed_str()) }).collect());
+                    }
+                }
                 v
             })
             .collect()
@@ -316,6 +338,12 @@ fn build_items(lang: &str, mode: Mode, raw: Vec<RawItem>, out: &mut Vec<Item>) {
                 };
                 // ordinary words for every oracle: none of them is a number or a linking word
                 push(w, Class::Filler, out);
+            }
+            57..=71 if !v.phrases.is_empty() && b % 16 == 5 => {
+                // a multi-word expression the tree's vocabulary files publish, word by word
+                for w in &v.phrases[idx(a, v.phrases.len())] {
+                    push(w.to_string(), if v.linking.contains(w) { Class::Link } else { Class::Filler }, out);
+                }
             }
             57..=71 => push(v.fillers[idx(a, v.fillers.len())].to_string(), Class::Filler, out),
             72..=77 => push(v.conj_alts[idx(a, v.conj_alts.len())].to_string(), Class::Conj, out),
